@@ -18,10 +18,15 @@ BCJ_FOR_ALT = [RC.M_X86, RC.M_ARM, RC.M_ARMT, RC.M_PPC, RC.M_SPARC]
 def chain(aes_ok=True):
     """coder list in decode order: [AES?] main [filter?]"""
 
-    def build(main, flt, aes, cyc, dist):
+    AESV = {"iv16": ("", "0102030405060708090a0b0c0d0e0f10"), "iv4": ("", "a1a2a3a4"), "none": ("", ""), "salt": ("5a17", "0102030405060708090a0b0c0d0e0f10"),
+            "salt16": ("00112233445566778899aabbccddeeff", "f1f2f3f4f5f6f7f8")}
+
+    def build(main, flt, aes, cyc, dist, aesv="iv16"):
         c = []
         if aes:
-            c.append({"m": RC.M_AES, "cycles": cyc, "iv": "0102030405060708090a0b0c0d0e0f10"})
+            # property forms: IV of 16 / 4 bytes, neither IV nor salt (one property byte), salt of 2 / 16 bytes; 0x3F = key without hashing
+            salt, iv = AESV[aesv]
+            c.append({"m": RC.M_AES, "cycles": cyc, "iv": iv, "salt": salt})
         m = {"m": main}
         if main in (RC.M_LZMA, RC.M_LZMA2):
             m["dict"] = 1 << 16
@@ -35,7 +40,8 @@ def chain(aes_ok=True):
 
     flt = st.one_of(st.none(), st.none(), st.just("delta"), st.sampled_from(BCJ_FOR_LZMA))
     return st.builds(build, st.sampled_from(MAIN + [RC.M_LZMA2, RC.M_COPY]), flt, st.booleans() if aes_ok else st.just(False),
-                     st.integers(0, 6), st.integers(1, 256))
+                     st.one_of(st.integers(0, 6), st.integers(0, 6), st.integers(0, 6), st.just(0x3F)), st.integers(1, 256),
+                     st.sampled_from(["iv16", "iv16", "iv4", "none", "salt", "salt16"]))
 
 
 def member():
@@ -69,6 +75,8 @@ def layout_opts():
         "header": st.sampled_from(["raw", "raw", "lzma", "lzma2", "aes", "lzma+aes"]),
         "hdr_crc": st.booleans(),
         "hdr_gap": st.sampled_from([0, 0, 3]),
+        "startpos": st.sampled_from([None, None, None, "all", "partial"]),
+        "archive_props": st.sampled_from([None, None, None, 1, 2]),
     })
 
 
